@@ -29,8 +29,8 @@ ROLE_OVERRIDES: Dict[Tuple[str, str], Tuple[str, str]] = {
 def role_of_origin(db: ProgramDB, fn: FuncInfo, origin: str) -> Tuple[str, str]:
     if origin in ("self", "super"):
         return "delegate", "delegation to another evaluation method of the same node"
-    if origin.startswith("param:domain"):
-        return "domain", "a domain expression (unbound by design)"
+    if origin.startswith("param:domain") or origin.endswith("_domain_source_.domain"):
+        return "value", "a domain given as an expression: what it evaluates to are the members of the domain"
     if "._conclusion_" in origin:
         return "conclusion", "application of a conclusion to the binding"
     if origin.startswith("self.") and fn.cls is not None:
